@@ -51,6 +51,10 @@ func runC16(c *Ctx) {
 	checkTypeStmtIdent(c, "R16k")
 	c.Rule("R16l", ruleTextTypeTextQualified, 3)
 	checkTypeTextQualified(c, "R16l")
+	c.Rule("R16o", ruleTextScopeCountsReferences, 1)
+	checkScopeCountsReferences(c, "R16o")
+	c.Rule("R16n", ruleTextQualifierIndependent, 2)
+	checkQualifierIndependent(c, "R16n")
 	c.Rule("R16m", ruleTextPrefixUnconditional, 3)
 	checkPrefixUnconditional(c, "R16m")
 	c.Rule("R16j", ruleTextOptsForwarded, 2)
@@ -440,25 +444,19 @@ func underSchemaScope(info *types.Info, body *ast.BlockStmt, pm map[ast.Node]ast
 		}
 		return false
 	}
-	for p := pm[n]; p != nil; p = pm[p] {
-		ifs, isIf := p.(*ast.IfStmt)
-		if !isIf {
-			continue
-		}
-		var edge bool
-		switch {
-		case ifs.Body.Pos() <= n.Pos() && n.End() <= ifs.Body.End():
-			edge = true
-		case ifs.Else != nil && ifs.Else.Pos() <= n.Pos() && n.End() <= ifs.Else.End():
-			edge = false
-		default:
-			continue
-		}
-		for _, fct := range impliedFacts(ifs.Cond, edge) {
+	// facts from enclosing ifs, tagless switch cases (with the negation of earlier cases) and && / || operands
+	// (a closure defined under the test inherits it: the walk continues outside each function literal)
+	for cur := n; cur != nil; {
+		for _, fct := range enclosingFacts(pm, cur) {
 			if scoped(fct.expr, fct.val, 0) {
 				return true
 			}
 		}
+		fl := enclosing(pm, cur, func(nd ast.Node) bool { _, ok := nd.(*ast.FuncLit); return ok })
+		if fl == nil {
+			break
+		}
+		cur = fl
 	}
 	return false
 }
